@@ -5,7 +5,7 @@
    ranges over the finite set {leap, common} x indicator x number <= 366, checked by vm_compute and lifted by suffix_sweep_sound.
    The engine's own parsing / rendering code (SQL macros and Python) is transcribed in Model/Period.v Part 2 and tied to the real
    code on every run by harness/props/c21.py. *)
-From Coq Require Import ZArith Bool List String.
+From Coq Require Import ZArith Lia Bool List String.
 Import ListNotations.
 From VTL Require Import Base.Calendar Proofs.CalendarP Model.Period Proofs.PeriodP.
 Open Scope Z_scope.
@@ -59,29 +59,32 @@ Theorem C21_sql_render_ok : forall f p, period_valid p = true -> 0 <= p_year p <
 Proof. exact render_impl_ok. Qed.
 Print Assumptions C21_sql_render_ok.
 
-(* vtl_period_to_string (struct -> string) is the canonical form from year 1000 on ... *)
-Theorem C21_sql_to_string_ok : forall p, period_valid p = true -> 1000 <= p_year p <= 9999 -> period_to_string_impl p = canonical p.
+(* vtl_period_to_string (struct -> string; after fix aa363dc the year is LPAD-ed to four digits) is the canonical form: years 0..9999 *)
+Theorem C21_sql_to_string_ok : forall p, period_valid p = true -> 0 <= p_year p <= 9999 -> period_to_string_impl p = canonical p.
 Proof. exact period_to_string_impl_ok. Qed.
 Print Assumptions C21_sql_to_string_ok.
 
-(* ... and the Python renderers / __str__ give the documented forms from year 1000 on; Python and SQL then agree *)
-Theorem C21_py_render_ok : forall f p, period_valid p = true -> 1000 <= p_year p <= 9999 ->
+(* the Python renderers / __str__ (after fix aa363dc: {year:04d}) give the documented forms; Python and SQL agree: years 1..9999
+   (datetime has no year 0, so the date forms of year 0000 raise) *)
+Theorem C21_py_render_ok : forall f p, period_valid p = true -> 1 <= p_year p <= 9999 ->
   py_render f p = match render f p with Some s => CkOk s | None => CkErr "2-1-19-21" end /\ py_str p = canonical p.
-Proof. intros f p V Y. split; [apply py_render_ok; assumption | apply py_str_canonical; assumption]. Qed.
+Proof. intros f p V Y. split; [apply py_render_ok; assumption | apply py_str_canonical; [assumption | lia]]. Qed.
 Print Assumptions C21_py_render_ok.
 
-Theorem C21_py_sql_render_agree : forall f p, period_valid p = true -> 1000 <= p_year p <= 9999 ->
+Theorem C21_py_sql_render_agree : forall f p, period_valid p = true -> 1 <= p_year p <= 9999 ->
   py_render f p = sres_ck (render_impl f (period_to_string_impl p)).
 Proof. exact py_sql_render_agree. Qed.
 Print Assumptions C21_py_sql_render_agree.
 
-(* below year 1000 the statement is false for the engine: f"{year}" / CAST(year AS VARCHAR) do not pad (witness 0001-M01) *)
-Theorem C21_low_year_refuted :
+(* REGRESSION WITNESSES: before fix aa363dc f"{year}" / CAST(year AS VARCHAR) did not pad (witness 0001-M01) *)
+Theorem C21_before_fix_low_year_refuted :
   (exists p, period_valid p = true /\ 0 <= p_year p <= 9999 /\
-             py_render FVtl p <> match render FVtl p with Some s => CkOk s | None => CkErr "2-1-19-21" end /\ py_str p <> canonical p) /\
-  (exists p, period_valid p = true /\ period_to_string_impl p <> canonical p /\ period_parse_impl (period_to_string_impl p) = None).
-Proof. split; [exact py_render_low_year_refuted | exact period_to_string_low_year_refuted]. Qed.
-Print Assumptions C21_low_year_refuted.
+             py_render_before_fix FVtl p <> match render FVtl p with Some s => CkOk s | None => CkErr "2-1-19-21" end /\
+             py_str_before_fix p <> canonical p) /\
+  (exists p, period_valid p = true /\ period_to_string_before_fix p <> canonical p /\
+             period_parse_impl (period_to_string_before_fix p) = None).
+Proof. split; [exact py_before_fix_low_year_refuted | exact period_to_string_before_fix_refuted]. Qed.
+Print Assumptions C21_before_fix_low_year_refuted.
 
 Example C21_hypotheses_satisfiable :
   period_valid (mkP 2020 ID 60) = true /\ In "2020-02-29"%string (spellings (mkP 2020 ID 60)) /\
